@@ -599,6 +599,24 @@ def voted(m, w, cand=N1, voter=N2):
     return w
 
 
+def dumped_voted(m, w, leader=N1, voter=N2, cand=N3):
+    """`voter` joined after `leader` had been elected (it learned the term from append_entries: no vote in that
+    term) and wrote its dump file while following. `leader` was restarted since and is an unconnected plain
+    follower; then `cand` started an election in the next term and `voter` granted its vote (answer in flight).
+    What the dump file holds must not matter for the vote."""
+    w = m.connect_all(w, only=[leader, cand])
+    w = elect(m, w, leader, only=[leader, cand])
+    w = m.connect_all(w)
+    w = beat(m, w, leader, times=3)
+    w = submit(m, w, leader, 1)
+    w = compact(m, w, voter)
+    w = m.do(w, ('P', leader, 'free'), ('U', leader, 'free'), ('Z', leader))
+    w = m.drain(w, ticks=False)
+    w = m.do(w, ('T', cand, m.cfg.tmin + 0.001))
+    w = m.do(w, ('D', cand, voter))
+    return w
+
+
 def version_snap(m, w, leader=N1, ver=1, lag=None, do_compact=True):
     """Follower `lag` cut off; the others switch to code version `ver`, run a command with it and
     the leader compacts: `lag` will catch up from a snapshot taken after the switch."""
@@ -769,7 +787,7 @@ def candidates(m, w, who=(N1, N2)):
     return w
 
 
-SEEDS = dict(split_vote5=split_vote5, lateack_resend=lateack_resend, late_vote5=late_vote5, m_lagsnap_added=m_lagsnap_added, deposed_runahead=deposed_runahead, forwarded_acked=forwarded_acked, m_readd_lateack=m_readd_lateack, vote_requested=vote_requested, forwarded_stale=forwarded_stale, reelected_cache3=reelected_cache3, deposed_obs=deposed_obs, voted=voted, stalled_old_code=stalled_old_code, reelected5=reelected5, stale_reset5=stale_reset5, stale_vote5=stale_vote5, stale_snapshot=stale_snapshot, ahead_full=ahead_full, fig8_full=fig8_full, candidates=candidates, battery_lagsnap=battery_lagsnap, ahead=ahead, lagging_newleader=lagging_newleader, m_deposed=m_deposed, split=split, version_snap=version_snap, fresh=fresh, steady=steady, lagging=lagging, lagging_snap=lagging_snap, deposed=deposed,
+SEEDS = dict(dumped_voted=dumped_voted, split_vote5=split_vote5, lateack_resend=lateack_resend, late_vote5=late_vote5, m_lagsnap_added=m_lagsnap_added, deposed_runahead=deposed_runahead, forwarded_acked=forwarded_acked, m_readd_lateack=m_readd_lateack, vote_requested=vote_requested, forwarded_stale=forwarded_stale, reelected_cache3=reelected_cache3, deposed_obs=deposed_obs, voted=voted, stalled_old_code=stalled_old_code, reelected5=reelected5, stale_reset5=stale_reset5, stale_vote5=stale_vote5, stale_snapshot=stale_snapshot, ahead_full=ahead_full, fig8_full=fig8_full, candidates=candidates, battery_lagsnap=battery_lagsnap, ahead=ahead, lagging_newleader=lagging_newleader, m_deposed=m_deposed, split=split, version_snap=version_snap, fresh=fresh, steady=steady, lagging=lagging, lagging_snap=lagging_snap, deposed=deposed,
              deposed_snap=deposed_snap, deposed_twice=deposed_twice, pending=pending, reconnect_pipeline=reconnect_pipeline,
              forwarded=forwarded, fig8=fig8)
 
